@@ -5,6 +5,7 @@
 import SoundeventModel.Crowsetta
 import Proofs.Lemmas.Crowsetta
 import Proofs.Lemmas.Bounds
+import Proofs.Lemmas.CrowsettaHist
 namespace SE.Proofs.C10
 open SE SE.Crowsetta SE.Proofs.Lemmas.Crowsetta
 
@@ -1553,5 +1554,149 @@ theorem C10_roundtrip_of_label_roundtrip (io : LabelOpts) (eo : TagsOpts) (hl : 
 example : roundtripSegment { key := some "species" } { selectByKey := some "species" } true true ⟨8, 1, "rec.wav"⟩
     ⟨"Myotis", some (1/2), none, none, some 10⟩ = .ok ⟨"Myotis", some (1/2), some (5/4), some 4, some 10⟩ := by
   decide +kernel
+
+/-! ## follow-up: histories (state between calls) and construction paths (positional calls)
+
+  `Hist.run` is the store semantics of consecutive imports in one process: every tag the cascade builds is
+  a freshly allocated mutable object, a caller may edit the tags of any earlier result in place.
+  `Hist.pureRun` is the value semantics: every call is the pure function `labelToTags` on its own
+  arguments, every edit changes the edited result only.  They agree, so every step of a history has
+  exactly one right answer, whatever happened before (the harness observes the same reads on the real
+  objects: op `tag_history`). -/
+
+open SE.Crowsetta.Hist SE.Proofs.Lemmas.CrowsettaHist in
+/-- after any history of calls and in-place edits, what the caller reads from all results is what the
+    value semantics says: calls are pure functions of their own arguments, edits are local -/
+theorem C10_history_value_semantics (evs : List Hist.Ev) :
+    (List.range (Hist.run evs).results.length).map (Hist.run evs).cells = Hist.pureRun evs := by
+  have h := (foldl_sim evs {} wf_init).2
+  have h0 : reads ({} : Hist.St) = [] := by simp [reads]
+  rw [h0] at h
+  exact h
+
+open SE.Crowsetta.Hist SE.Proofs.Lemmas.CrowsettaHist in
+/-- a call at the end of *any* history (earlier results edited in place or not) reads as the pure
+    function of its own options and labels: nothing carries over from earlier calls -/
+theorem C10_history_call_pure (evs : List Hist.Ev) (o : LabelOpts) (ls : List String) :
+    (Hist.run (evs ++ [.call o ls])).cells (Hist.run evs).results.length =
+      (Hist.callVals o ls).toOption := by
+  have hw := (foldl_sim evs {} wf_init).1
+  have hs := (step_sim (Hist.run evs) hw (.call o ls)).2
+  have hrun : Hist.run (evs ++ [.call o ls]) = Hist.step (Hist.run evs) (.call o ls) := by
+    simp [Hist.run, List.foldl_append]
+  rw [hrun]
+  have hk := congrArg (fun l => l[(Hist.run evs).results.length]?) hs
+  simp only [reads_getElem?, Hist.pureStep] at hk
+  have hlen : (Hist.run evs).results.length < (Hist.step (Hist.run evs) (.call o ls)).results.length := by
+    cases hc : Hist.callVals o ls <;> simp [Hist.step, hc]
+  simp only [hlen, if_true] at hk
+  rw [List.getElem?_append_right (by simp [reads_length])] at hk
+  simpa [reads_length] using hk
+
+open SE.Crowsetta.Hist SE.Proofs.Lemmas.CrowsettaHist in
+/-- a later call leaves every earlier result as it was (a result does not alias anything a later call touches) -/
+theorem C10_history_results_kept (evs : List Hist.Ev) (o : LabelOpts) (ls : List String) (k : Nat)
+    (hk : k < (Hist.run evs).results.length) :
+    (Hist.run (evs ++ [.call o ls])).cells k = (Hist.run evs).cells k := by
+  have hw := (foldl_sim evs {} wf_init).1
+  have hs := (step_sim (Hist.run evs) hw (.call o ls)).2
+  have hrun : Hist.run (evs ++ [.call o ls]) = Hist.step (Hist.run evs) (.call o ls) := by
+    simp [Hist.run, List.foldl_append]
+  rw [hrun]
+  have h := congrArg (fun l => l[k]?) hs
+  simp only [reads_getElem?, Hist.pureStep] at h
+  have hlen : k < (Hist.step (Hist.run evs) (.call o ls)).results.length := by
+    cases hc : Hist.callVals o ls <;> simp [Hist.step, hc] <;> omega
+  simp only [hlen, if_true] at h
+  rw [List.getElem?_append_left (by simpa [reads_length] using hk), reads_getElem?] at h
+  simpa [hk] using h
+
+open SE.Crowsetta.Hist SE.Proofs.Lemmas.CrowsettaHist in
+/-- an in-place edit of the tags of result `k` is seen in result `k` only -/
+theorem C10_history_edit_local (evs : List Hist.Ev) (k a : Nat) (v : String) (j : Nat) (hj : j ≠ k) :
+    (Hist.run (evs ++ [.edit k a v])).cells j = (Hist.run evs).cells j := by
+  have hw := (foldl_sim evs {} wf_init).1
+  have hs := (step_sim (Hist.run evs) hw (.edit k a v)).2
+  have hrun : Hist.run (evs ++ [.edit k a v]) = Hist.step (Hist.run evs) (.edit k a v) := by
+    simp [Hist.run, List.foldl_append]
+  rw [hrun]
+  have hres : (Hist.step (Hist.run evs) (.edit k a v)).results = (Hist.run evs).results := by
+    simp only [Hist.step]
+    split
+    · split <;> rfl
+    · rfl
+  by_cases hlt : j < (Hist.run evs).results.length
+  · have h := congrArg (fun l => l[j]?) hs
+    simp only [reads_getElem?, Hist.pureStep, modifyAt_getElem?, hres, hlt, if_true, hj, if_false] at h
+    simpa using h
+  · have h1 : (Hist.run evs).results[j]? = none := by simp; omega
+    simp [Hist.St.cells, hres, h1]
+
+open SE.Crowsetta.Hist SE.Proofs.Lemmas.CrowsettaHist in
+/-- the statement of seeded change C10-7 as a theorem: whatever was imported and edited before, every tag
+    the cascade builds for a later element carries that element's label as its value -/
+theorem C10_history_value_is_label (evs : List Hist.Ev) (o : LabelOpts) (ls : List String) (ts : List Tag)
+    (ho : Hist.ownTags o = true)
+    (h : (Hist.run (evs ++ [.call o ls])).cells (Hist.run evs).results.length = some ts) :
+    ∀ t ∈ ts, t.value ∈ ls := by
+  rw [C10_history_call_pure] at h
+  cases hc : Hist.callVals o ls with
+  | error e => simp [hc, Except.toOption] at h
+  | ok ts' =>
+    simp only [hc, Except.toOption, Option.some.injEq] at h
+    subst h
+    unfold Hist.callVals at hc
+    cases hm : ls.mapM (labelToTags o) with
+    | error e => simp [hm, Except.map] at hc
+    | ok tss =>
+      simp only [hm, Except.map, Except.ok.injEq] at hc
+      subst hc
+      have hmap := (mapM_ok_iff (labelToTags o) ls tss).mp hm
+      intro t ht
+      obtain ⟨tl, htl, htin⟩ := List.mem_flatten.mp ht
+      obtain ⟨i, hi, rfl⟩ := List.getElem_of_mem htl
+      have hlen : tss.length = ls.length := by
+        have := congrArg List.length hmap; simpa using this.symm
+      have hi' : i < ls.length := by omega
+      have hget := congrArg (fun l => l[i]?) hmap
+      simp only [List.getElem?_map, List.getElem?_eq_getElem hi', List.getElem?_eq_getElem hi, Option.map_some,
+        Option.some.injEq] at hget
+      rw [ownTags_value o ls[i] tss[i] ho hget t htin]
+      exact List.getElem_mem _
+
+-- non-vacuity: the history of seeded change C10-7 (import "a", the caller corrects the tag in place, import "a" again)
+example : Hist.pureRun [.call {} ["a", "b", "a"], .edit 0 0 "a-corrected", .call {} ["a"]] =
+    [some [⟨termFromKey "crowsetta", "a-corrected"⟩, ⟨termFromKey "crowsetta", "b"⟩, ⟨termFromKey "crowsetta", "a"⟩],
+     some [⟨termFromKey "crowsetta", "a"⟩]] := by decide +kernel
+
+/-! ### positional calls -/
+
+open SE.Proofs.Lemmas.CrowsettaHist in
+/-- no public converter has two parameters of the same name (the table is tied to the signatures on every run) -/
+theorem C10_signatures_wellformed : ∀ s ∈ signatures, s.params.Nodup := by decide
+
+open SE.Proofs.Lemmas.CrowsettaHist in
+/-- every split between positional and keyword passing (in the table's order) binds the same values:
+    the call is the keyword call `params.zip vals` -/
+theorem C10_positional_split {α} (s : Sig) (hs : s ∈ signatures) (vals : List α) (k : Nat)
+    (hl : vals.length ≤ s.params.length) : splitCall s.params vals k = some (s.params.zip vals) :=
+  splitCall_eq s.params vals k (C10_signatures_wellformed s hs) hl
+
+open SE.Proofs.Lemmas.CrowsettaHist in
+/-- … in which the `i`-th parameter of the table receives the `i`-th value -/
+theorem C10_positional_lookup {α} (s : Sig) (hs : s ∈ signatures) (vals : List α) (i : Nat)
+    (hp : i < s.params.length) (hv : i < vals.length) : (s.params.zip vals).lookup s.params[i] = some vals[i] :=
+  zip_lookup s.params vals (C10_signatures_wellformed s hs) i hp hv
+
+/-- more positional values than parameters is a `TypeError` -/
+theorem C10_positional_too_many {α} (params : List String) (pos : List α) (kw : List (String × α))
+    (h : params.length < pos.length) : bindCall params pos kw = none := by
+  unfold bindCall
+  have : ¬ pos.length ≤ params.length := by omega
+  simp [this]
+
+-- non-vacuity
+example : splitCall ["obj", "cast_to_bbox", "raise_on_time_geometries"] [1, 2, 3] 1 =
+    some [("obj", 1), ("cast_to_bbox", 2), ("raise_on_time_geometries", 3)] := by decide
 
 end SE.Proofs.C10
